@@ -114,10 +114,20 @@ class Inflight:
         reraise-as   try: CALL / except H as _e: SIDE; raise _e
         with         with _Exit(lambda: SIDE): CALL                 (SIDE runs in __exit__, also when CALL succeeds)
 
-    side = index of an earlier node, or ("note", a) = the helper cells Main.note(a); hcls = handler class of the
-    except forms (the side is evaluated only if it catches the exception in flight)."""
+    and forms in which a failure of SIDE is swallowed inside the handler, so that the ORIGINAL exception goes on
+    (SWALLOW_FORMS; never drawn unless asked for by name):
+
+        swallow-in-except    try: CALL / except H: try: SIDE / except Exception: pass // raise
+        swallow-in-finally   try: CALL / finally: try: SIDE / except Exception: pass
+
+    side = index of an earlier node, or ("note", a) = the helper cells Main.note(a), or ("oops", a) = the helper
+    cells Main.oops(a) whose formula always raises ZeroDivisionError (swallow forms only); hcls = handler class of
+    the except forms (the side is evaluated only if it catches the exception in flight)."""
     __slots__ = ("form", "side", "style", "hcls")
     FORMS = ("finally", "reraise", "reraise-as", "with")
+    SWALLOW_FORMS = ("swallow-in-except", "swallow-in-finally")
+    ALL_FORMS = FORMS + SWALLOW_FORMS
+    SWALLOWS = "exc"        # class caught by the inner handler of the swallow forms (key of HANDLES)
 
     def __init__(self, form, side, style="plain", hcls=None):
         self.form, self.side, self.style, self.hcls = form, side, style, hcls
@@ -126,7 +136,15 @@ class Inflight:
         return (self.form, self.side, self.style, self.hcls)
 
     def triggered_by(self, kind):
-        return self.form in ("finally", "with") or kind in HANDLES[self.hcls]
+        return self.form in ("finally", "with", "swallow-in-finally") or kind in HANDLES[self.hcls]
+
+    @property
+    def swallows(self):
+        return self.form in self.SWALLOW_FORMS
+
+    @property
+    def runs_on_success(self):
+        return self.form in ("finally", "with", "swallow-in-finally")
 
 
 class Fail:
@@ -247,13 +265,21 @@ class Spec:
     def uses_inflight(self):
         return any(dep.inflight is not None for nd in self.nodes for dep in nd.deps)
 
+    def uses_oops(self):
+        return any(dep.inflight is not None and not isinstance(dep.inflight.side, int)
+                   and dep.inflight.side[0] == "oops" for nd in self.nodes for dep in nd.deps)
+
     def side_expr(self, j, inf):
         """Source of the side evaluation of an Inflight wrapper inside node j's formula."""
         if isinstance(inf.side, int):
             e = self.call_expr(j, Dep(inf.side))
         else:
-            e = ("" if self.nodes[j].home == "Main" else "Main.") + "note(%d)" % inf.side[1]
+            e = ("" if self.nodes[j].home == "Main" else "Main.") + "%s(%d)" % inf.side
         return self._wrap_call(e, inf.style)
+
+    @staticmethod
+    def oops_label(a):
+        return ("M.Main.oops", (a,))
 
     @staticmethod
     def note_label(a):
@@ -334,6 +360,19 @@ class Spec:
                         elif inf.form == "reraise":
                             emit("    except %s:" % HANDLER_CLASS[inf.hcls])
                             st["side_line"] = emit("        " + se)
+                            emit("        raise")
+                        elif inf.form == "swallow-in-finally":
+                            emit("    finally:")
+                            emit("        try:")
+                            st["side_line"] = emit("            " + se)
+                            emit("        except %s:" % HANDLER_CLASS[inf.SWALLOWS])
+                            emit("            pass")
+                        elif inf.form == "swallow-in-except":
+                            emit("    except %s:" % HANDLER_CLASS[inf.hcls])
+                            emit("        try:")
+                            st["side_line"] = emit("            " + se)
+                            emit("        except %s:" % HANDLER_CLASS[inf.SWALLOWS])
+                            emit("            pass")
                             emit("        raise")
                         else:
                             emit("    except %s as _e:" % HANDLER_CLASS[inf.hcls])
@@ -506,6 +545,8 @@ def build(spec, rec):
         rec.do('Main.new_cells("note", formula="lambda x: x")')
         rec.do(EXIT_CLASS)
         rec.do("m._Exit = _Exit")
+    if spec.uses_oops():
+        rec.do('Main.new_cells("oops", formula="lambda x: 1 // 0")')
     if spec.model_allow:
         rec.do("m.allow_none = True")
     for h, v in spec.space_allow.items():
@@ -587,7 +628,8 @@ class Sim:
         self.handled_unwinds = []    # (labels unwound by an exception that a formula handled, open-ended?)
         self.boom_raised = 0         # exceptions raised through the _boom() helper so far (they are listed in RAISED)
         self.note_held = set()       # arguments of Main.note held before the call (Inflight wrappers)
-        self.inflight_evals = []     # (form, side was really evaluated?, side completed normally?) while an exception propagated
+        self.inflight_evals = []     # (form, side was really evaluated?, side completed normally? True | False |
+                                     #  "swallowed" = failed, the wrapper handled that itself) while an exception propagated
 
     def top(self, j):
         try:
@@ -630,11 +672,20 @@ class Sim:
         if isinstance(inf.side, int):
             nd = sp.nodes[inf.side]
             evaluated = not (nd.cached and (inf.side in self.held or inf.side in sp.inputs))
+        elif inf.side[0] == "oops":
+            evaluated = True
         else:
             evaluated = inf.side[1] not in self.note_held
         try:
             if isinstance(inf.side, int):
                 self._call(inf.side, caller)
+            elif inf.side[0] == "oops":
+                # the helper always raises ZeroDivisionError (never held); the swallow forms always catch it
+                self.stack.append([sp.oops_label(inf.side[1]), 1])
+                x = SimExc("zde", caller)
+                x.chain = [(lab, ln) for lab, ln in self.stack]
+                self.stack.pop()
+                raise x
             elif evaluated:
                 self.stack.append([sp.note_label(inf.side[1]), 1])
                 self.stack.pop()
@@ -676,7 +727,14 @@ class Sim:
                             fr[1] = st["side_line"]
                             try:
                                 self._side(inf, j, True)
-                            except SimExc:
+                            except SimExc as e2:
+                                if inf.swallows and e2.kind in HANDLES[inf.SWALLOWS]:
+                                    # the formula handles the side's failure right there and lets e go on: the
+                                    # elements unwound by the side's exception are history, e's chain is unchanged
+                                    self.handled_unwinds.append(([lab for lab, _ in e2.chain[len(self.stack):]],
+                                                                 getattr(e2, "open_ended", None) is not None))
+                                    self.inflight_evals[-1] = self.inflight_evals[-1][:2] + ("swallowed",)
+                                    raise e
                                 # the side failed: its exception replaces e, whose unwound elements are history
                                 self.handled_unwinds.append(([lab for lab, _ in e.chain[len(self.stack):]],
                                                              getattr(e, "open_ended", None) is not None))
@@ -696,9 +754,15 @@ class Sim:
                         else:
                             raise
                     else:
-                        if inf is not None and inf.form in ("finally", "with"):
+                        if inf is not None and inf.runs_on_success:
                             fr[1] = st["side_line"]
-                            self._side(inf, j, False)
+                            try:
+                                self._side(inf, j, False)
+                            except SimExc as e2:
+                                if not (inf.swallows and e2.kind in HANDLES[inf.SWALLOWS]):
+                                    raise
+                                self.handled_unwinds.append(([lab for lab, _ in e2.chain[len(self.stack):]],
+                                                             getattr(e2, "open_ended", None) is not None))
                 elif op == "FAIL":
                     f = st["fail"]
                     if f.cond and not sp.flags[j]:
@@ -821,9 +885,9 @@ def add_inflight(spec, rnd, form=None, placement="all"):
     """Wrap calls of `spec` in Inflight constructs (in place; -> number of wrapped calls).
 
     Every call that is not already wrapped in a handler, in a formula that can hold statements (not a lambda), is
-    wrapped (placement 'all') or wrapped with probability 0.6 ('some'); form = one of Inflight.FORMS or None (drawn
-    per call).  The side element is an earlier node other than the callee (any kind: it may be held already, be
-    uncached, fail itself, handle failures itself) or - always when there is no such node, else half of the time -
+    wrapped (placement 'all') or wrapped with probability 0.6 ('some'); form = one of Inflight.ALL_FORMS or None
+    (drawn per call among Inflight.FORMS).  The side element is an earlier node other than the callee (any kind: it
+    may be held already, be uncached, fail itself, handle failures itself) or - always when there is no such node, else half of the time -
     the helper cells Main.note with an argument used nowhere else (so it holds no value before the first evaluation
     after a clear_all)."""
     fails = {nd.fail.kind for nd in spec.nodes if nd.fail is not None}
@@ -842,8 +906,12 @@ def add_inflight(spec, rnd, form=None, placement="all"):
                 side = rnd.choice(others)
             else:
                 side = ("note", 10 * nd.j + i)
+            if f in Inflight.SWALLOW_FORMS and (not isinstance(side, int) or rnd.random() < 0.4):
+                # the side must fail for its failure to be swallowed: mostly the always-failing helper
+                # (an earlier node may fail, succeed, be held, or fail with something the inner handler lets through)
+                side = ("oops", 10 * nd.j + i)
             hcls = None
-            if f in ("reraise", "reraise-as"):
+            if f in ("reraise", "reraise-as", "swallow-in-except"):
                 kinds = sorted(fails) or ["zde"]
                 fk = rnd.choice(kinds)
                 hcls = rnd.choice(HANDLER_FOR[fk]) if rnd.random() < 0.85 else rnd.choice(NONHANDLER_FOR[fk])
